@@ -227,3 +227,138 @@ Proof.
   apply Nat.lt_succ_r. apply flat_map_length_ge. intros [n v]. cbn [fst snd].
   rewrite app_length. unfold s_trap_dd. cbn [length]. lia.
 Qed.
+
+(* --- set +o ----------------------------------------------------------------------- *)
+
+(* a block of complete lines that reads as the commands [cs], whatever follows *)
+Definition lines_ok (t : str) (cs : list simple) : Prop :=
+  (length cs <= length t)%nat
+  /\ forall fuel text,
+       run_lines ws (length cs + fuel) (t ++ text) = option_map (app cs) (run_lines ws fuel text).
+
+Lemma lines_ok_nil : lines_ok [] [].
+Proof. split; [cbn; lia|]. intros fuel text. cbn. destruct (run_lines ws fuel text); reflexivity. Qed.
+
+Lemma lines_ok_app t1 c1 t2 c2 : lines_ok t1 c1 -> lines_ok t2 c2 -> lines_ok (t1 ++ t2) (c1 ++ c2).
+Proof.
+  intros [L1 H1] [L2 H2]. split; [rewrite !app_length; lia|].
+  intros fuel text. rewrite app_length, <- Nat.add_assoc, <- app_assoc, H1, H2.
+  destruct (run_lines ws fuel text); cbn [option_map]; [rewrite app_assoc|]; reflexivity.
+Qed.
+
+Lemma lines_ok_line line c :
+  line <> [] ->
+  (forall text, run_line ws (line ++ c_nl :: text) = COk c (c_nl :: text)) ->
+  lines_ok (line ++ [c_nl]) [c].
+Proof.
+  intros Hne H. split; [rewrite app_length; cbn; lia|].
+  intros fuel text. rewrite <- app_assoc. cbn [app length Nat.add].
+  rewrite (run_lines_step fuel line c text Hne (H text)).
+  destruct (run_lines ws fuel text); reflexivity.
+Qed.
+
+Lemma lines_ok_flat_map {A} (f : A -> str) (g : A -> list simple) l :
+  (forall x, In x l -> lines_ok (f x) (g x)) -> lines_ok (flat_map f l) (flat_map g l).
+Proof.
+  induction l as [|x l IH]; intros H; [apply lines_ok_nil|].
+  cbn [flat_map]. apply lines_ok_app; [apply H; left; reflexivity|].
+  apply IH. intros y Hy. apply H. right; assumption.
+Qed.
+
+Lemma lines_ok_run t cs : lines_ok t cs -> run_lines ws (lines_fuel t) t = Some cs.
+Proof.
+  intros [L H]. unfold lines_fuel.
+  replace (S (length t)) with (length cs + S (length t - length cs))%nat by lia.
+  rewrite <- (app_nil_r t) at 2. rewrite H. cbn. rewrite app_nil_r. reflexivity.
+Qed.
+
+Definition set_cmd (flag name : str) : simple := mkSimple [] [OField s_set; OField flag; OField name].
+
+Lemma set_o_line_ok flag name :
+  flag = s_minus_o \/ flag = s_plus_o -> simple_word name = true ->
+  lines_ok (set_o_line flag name) [set_cmd flag name].
+Proof.
+  intros Hf Hn. unfold set_o_line.
+  replace (s_set ++ c_sp :: flag ++ c_sp :: name ++ [c_nl])
+    with ((s_set ++ c_sp :: flag ++ c_sp :: name) ++ [c_nl]) by (norm_app; reflexivity).
+  apply lines_ok_line; [unfold s_set; cbn [app]; discriminate|].
+  intros text.
+  pose proof (run_line_multi ws rust_ws_ascii_ok s_set [flag; name] [flag; name] (c_nl :: text) eq_refl) as E.
+  cbn [spaced flat_map] in E. rewrite app_nil_r in E.
+  replace ((s_set ++ c_sp :: flag ++ c_sp :: name) ++ c_nl :: text)
+    with (s_set ++ ((c_sp :: flag) ++ c_sp :: name) ++ c_nl :: text) by (norm_app; reflexivity).
+  apply E; [|apply nl_rest_ok].
+  constructor; [|constructor; [apply simple_multi_word; [apply rust_ws_ascii_ok | assumption]|constructor]].
+  destruct Hf as [-> | ->].
+  - change s_minus_o with (quote ws s_minus_o) at 1.
+    apply quote_multi_word; [apply ws_sub | apply rust_ws_ascii_ok].
+  - change s_plus_o with (quote ws s_plus_o) at 1.
+    apply quote_multi_word; [apply ws_sub | apply rust_ws_ascii_ok].
+Qed.
+
+Lemma skip_comment_line line text :
+  mem c_nl line = false -> skip_comment (line ++ c_nl :: text) = c_nl :: text.
+Proof.
+  induction line as [|c l IH]; intros H.
+  - cbn. reflexivity.
+  - rewrite mem_cons, orb_false_iff in H. destruct H as [H1 H2].
+    cbn [app skip_comment]. rewrite N.eqb_sym, H1. apply IH. assumption.
+Qed.
+
+Lemma comment_line_ok line :
+  mem c_nl line = false -> lines_ok ((c_hash :: line) ++ [c_nl]) [mkSimple [] []].
+Proof.
+  intros H. apply lines_ok_line; [discriminate|]. intros text.
+  unfold run_line, words_fuel. cbn [app length read_words skip_blanks].
+  change (N.eqb c_hash c_bs) with false. cbn iota.
+  assert (Hb : is_blank ws c_hash = false) by reflexivity. rewrite Hb, N.eqb_refl.
+  rewrite skip_comment_line by assumption. reflexivity.
+Qed.
+
+Definition opt_cmds (p : str * str) : list simple :=
+  if str_eqb (fst p) s_portable then []
+  else [if existsb (str_eqb (fst p)) unmodifiable then mkSimple [] []
+        else set_cmd (opt_flag p) (fst p)].
+
+Definition set_o_cmds (st : snapshot) : list simple :=
+  set_cmd s_plus_o s_portable :: flat_map opt_cmds st
+  ++ (if portable_on st then [set_cmd s_minus_o s_portable] else []).
+
+Lemma simple_word_no_nl n : simple_word n = true -> mem c_nl n = false.
+Proof.
+  intros H. destruct n as [|c t]; [reflexivity|]. unfold simple_word in H.
+  apply mem_false_iff. intros Hin. rewrite forallb_forall in H. specialize (H _ Hin). discriminate H.
+Qed.
+
+Lemma opt_line_ok p : simple_word (fst p) = true -> lines_ok (opt_line p) (opt_cmds p).
+Proof.
+  intros Hn. unfold opt_line, opt_cmds.
+  destruct (str_eqb (fst p) s_portable); [apply lines_ok_nil|].
+  assert (Hf : opt_flag p = s_minus_o \/ opt_flag p = s_plus_o)
+    by (unfold opt_flag; destruct (str_eqb (snd p) s_on); auto).
+  destruct (existsb (str_eqb (fst p)) unmodifiable).
+  - unfold set_o_line. cbn [app].
+    replace (c_hash :: s_set ++ c_sp :: opt_flag p ++ c_sp :: fst p ++ [c_nl])
+      with ((c_hash :: s_set ++ c_sp :: opt_flag p ++ c_sp :: fst p) ++ [c_nl])
+      by (norm_app; reflexivity).
+    apply comment_line_ok.
+    assert (Hm : mem c_nl (fst p) = false) by (apply simple_word_no_nl; assumption).
+    change (s_set ++ c_sp :: opt_flag p ++ c_sp :: fst p)
+      with (s_set ++ [c_sp] ++ opt_flag p ++ [c_sp] ++ fst p).
+    rewrite !mem_app, Hm. destruct Hf as [-> | ->]; reflexivity.
+  - apply set_o_line_ok; assumption.
+Qed.
+
+Lemma set_o_listing_lemma st :
+  Forall (fun p => simple_word (fst p) = true) st ->
+  run_lines ws (lines_fuel (set_o_text st)) (set_o_text st) = Some (set_o_cmds st).
+Proof.
+  intros H. apply lines_ok_run. unfold set_o_text, set_o_cmds.
+  change (set_cmd s_plus_o s_portable :: flat_map opt_cmds st ++ (if portable_on st then [set_cmd s_minus_o s_portable] else []))
+    with ([set_cmd s_plus_o s_portable] ++ flat_map opt_cmds st ++ (if portable_on st then [set_cmd s_minus_o s_portable] else [])).
+  apply lines_ok_app; [apply set_o_line_ok; [right; reflexivity | reflexivity]|].
+  apply lines_ok_app.
+  - apply lines_ok_flat_map. intros p Hp. apply opt_line_ok.
+    rewrite Forall_forall in H. apply H. assumption.
+  - destruct (portable_on st); [apply set_o_line_ok; [left; reflexivity | reflexivity] | apply lines_ok_nil].
+Qed.
